@@ -38,10 +38,12 @@ theorem C11_unit_start_generated (D : Desc) (s : St) (a : After) :
     startFlushRaw s a = (Gen.start_flush_io_buffer_raw D s a).emit (.flushStart .cmd true) :=
   ⟨rfl, rfl, rfl⟩
 
-/-- the counters this property's theorems keep as unbounded natural numbers (`position`, `position`) are declared
+/-- the counters this property's theorems keep as unbounded natural numbers (`buf_size`, `unsolicited_buf_size`, `position`, `position`) are declared
 `size_t` in `cat.h` — 64 bits on the target, so they cannot wrap on any buffer, table or line that exists; the widths
 are read from the struct declarations on every run (translator item T21) -/
 theorem C11_counters_unbounded :
+    Gen.width_desc_buf_size = 64 ∧
+    Gen.width_desc_unsolicited_buf_size = 64 ∧
     Gen.width_obj_position = 64 ∧
     Gen.width_uns_position = 64 := by decide
 
